@@ -29,7 +29,7 @@ def run_batch(exe, ncases_hint=None, stdin=None, seed=None, timeout=300, env_ext
     start = 0
     hangs = 0
     for _ in range(200):
-        rc, out, err = run_exe(exe, [str(start)], stdin=stdin, seed=seed, timeout=timeout, env_extra=env_extra, stall=max(60, timeout / 5))
+        rc, out, err = run_exe(exe, [str(start)], stdin=stdin, seed=seed, timeout=timeout, env_extra=env_extra, stall=max(30, timeout / 15))
         if rc == "timeout":
             hangs += 1
         c, o = parse_cases(out)
